@@ -653,6 +653,9 @@ func writeEvidence(id, tier string, seed uint64, cfg propCfg, agg *workerStats, 
 		"wall_s":     wall,
 		"violations": nviol,
 	}
+	if os.Getenv("VERIF_NO_EVIDENCE") != "" {
+		return // sensitivity runs against scratch copies must not overwrite the evidence
+	}
 	os.MkdirAll(filepath.Join(verifDir, "evidence"), 0o755)
 	bb, _ := json.MarshalIndent(ev, "", " ")
 	if err := os.WriteFile(filepath.Join(verifDir, "evidence", id+".json"), bb, 0o644); err != nil {
